@@ -3,7 +3,7 @@
    check_case: the model computes what the implementation did.
    spec_case : what the implementation did satisfies the property, judged on the
                observations alone (no model involved). *)
-From Sdns Require Export Common.Base Gen.C11 C11.Model C11.Stream C11.Regroup C11.Shutdown C11.Flights.
+From Sdns Require Export Common.Base Gen.C11 C11.Model C11.Stream C11.Regroup C11.Shutdown C11.Flights C11.Inline.
 
 (* ---- observations ---- *)
 (* writer: per op, return class (0 nil, 1 errAlreadyWritten, 2 other error), Written() after
@@ -67,7 +67,15 @@ Inductive case :=
      at the global pool, 5 = shed at the zone quota), and the (global, zone) slots held after
      every event *)
 | CaseFlights (keys : list nat) (nkeys cap zcap : nat) (cs : list gcaller) (evs : list gtev)
-              (obs : list gobs) (series : list (nat * nat)).
+              (obs : list gobs) (series : list (nat * nat))
+  (* cache hits across the UDP transport's passes (one full pass on a worker / inline pass on
+     the reader / handoff + replay) with the per-entry rate limiter on and, when crate > 0, the
+     ratelimit middleware's per-client limiter in front of it: the configured rates (= bursts;
+     per minute for clients, per second for entries), the number of cached names, the queries,
+     per query what was observed (replies at the client socket, TC, handed off by the inline
+     pass, tokens x1000 of the entry's limiter just before and after, whether the client is
+     limited and tokens x60000 of its limiter before and after) *)
+| CaseInline (crate rate : Z) (nnames : nat) (qs : list iquery) (obs : list iobs).
 
 (* ---- helpers ---- *)
 Definition ret_code (r : wret) : N := match r with ROk => 0 | RAlready => 1 | RErr => 2 end%N.
@@ -302,6 +310,11 @@ Definition no_idle_wait (rs : list preq) (evs : list wevent) (obs : list pobs) :
     | _, _ => true
     end) idx.
 
+Definition iobs_eqb (a b : iobs) : bool :=
+  (io_replies a =? io_replies b)%Z && Bool.eqb (io_tc a) (io_tc b) && Bool.eqb (io_handoff a) (io_handoff b) &&
+  (io_before a =? io_before b)%Z && (io_after a =? io_after b)%Z &&
+  Bool.eqb (io_limited a) (io_limited b) && (io_cbefore a =? io_cbefore b)%Z && (io_cafter a =? io_cafter b)%Z.
+
 Definition check_case (c : case) : bool :=
   match c with
   | CaseWriter ops obs emits =>
@@ -359,6 +372,9 @@ Definition check_case (c : case) : bool :=
       let s := ffinal s0 evs in
       list_eqb gobs_eqb (map (fexpected cs s) (seq 0 (length cs))) obs &&
       list_eqb (fun a b => (fst a =? fst b)%nat && (snd a =? snd b)%nat) (fseries s0 evs) series
+  | CaseInline crate rate nnames qs obs =>
+      list_eqb iobs_eqb (run_inline crate rate (repeat (bk_full crate client_unit) 4)
+                                    (repeat (bk_full rate entry_unit) nnames) qs) obs
   end.
 
 Definition spec_case (c : case) : bool :=
@@ -450,4 +466,9 @@ Definition spec_case (c : case) : bool :=
                  end%N) (combine cs obs) &&
       forallb (fun x => (fst x <=? cap)%nat && (snd x <=? zcap)%nat) series &&
       match rev series with (u, z) :: _ => (u =? 0)%nat && (z =? 0)%nat | [] => true end
+  | CaseInline crate rate nnames qs obs =>
+      (* never two replies; a query that found a token in its client's bucket (when limited) and
+         then in its entry's bucket gets exactly one, a refused one none; one question costs each
+         limiter it reaches one token whatever passes it went through *)
+      (length qs =? length obs)%nat && forallb iobs_spec obs
   end.
